@@ -53,6 +53,7 @@ T = [
 ("C10","fix: BasePathFS.Sub returned the sub file system of the base","BasePathFS.Sub(dir) handed out the raw MemFS view of the base: s.Symlink(\"/outside/file\", \"/l\") through it, then ReadFile/WriteFile(dir/l) through the BasePathFS read and overwrote a file outside the base path"),
 ("C03","fix: MemFS.RemoveAll emptied directories on which the user had write permission only","MemFS.RemoveAll by a non-administrator removed the entries of a directory he can write but not search or read (os.RemoveAll: EACCES, content kept); found both as a wrong success and as content missing after a refused call"),
 ("C10","fix: BasePathFS Remove and RemoveAll of the root directory acted on the base path itself","BasePathFS Remove(\"/\") answered ENOTEMPTY / removed an empty base directory, RemoveAll(\"/\") (also spelled /..) deleted the base directory itself; same on the view returned by Sub"),
+("C06","fix: MemFS created entries in directories that had been removed since they were looked up","MemFS Mkdir/MkdirAll/OpenFile(O_CREATE)/Symlink/Link/Rename into a directory that a concurrent Remove, RemoveAll or Rename removed after the lookup (3 threads: Remove(/d/e/z) || Remove(/d/e) || Rename(/f,/d/e/f)): every call returned nil and the new entry or the moved tree was lost"),
 ]
 log = subprocess.check_output(['git','-C','/repo','log','--format=%h %s','adfd2e3..HEAD']).decode().strip().split('\n')
 subj = {}
